@@ -190,7 +190,13 @@ def run(facts, cg):
         a0 = simplify(T.of_operand(b, t['args'][0]))
         a1 = simplify(T.of_operand(b, t['args'][1]))
         instances.append({'rule': 'R-OFFSETS(fetch-list)', 'function': b.q, 'at': t['loc'], 'offset': show(a0), 'size': show(a1)})
-        if not has_field(a0, 'archive_offset') or not has_field(a1, 'archive_size') or calls_in(a0) or [c for c in calls_in(a1)]:
+        def _is_plain_field(x, name):
+            while isinstance(x, tuple) and x[0] == 'cast':
+                x = x[2]
+            return isinstance(x, tuple) and x[0] == 'field' and x[2] == name
+        # (the descriptor itself may come out of an iterator chain or out of a loop: what matters is that the two values are its
+        # fields as they are)
+        if not _is_plain_field(a0, 'archive_offset') or not _is_plain_field(a1, 'archive_size'):
             finding('R-OFFSETS', b.q, 'fetch-list', 'chunk fetch range is not exactly (descriptor.archive_offset, descriptor.archive_size): (%s, %s)' % (show(a0), show(a1)))
 
     # ---------------------------------------------------------------- R-WIRE in the clone command
@@ -262,7 +268,7 @@ def run(facts, cg):
     for b in facts.bodies.values():
         if b.q == 'bitar::archive::Archive::chunk_stream':
             ok = False
-            for bid2 in cg.edges[b.id]:
+            for bid2 in list(cg.edges[b.id]) + [b.id]:
                 c = facts.bodies[bid2]
                 for bi, t in c.calls():
                     if 'q' in t['callee'] and callee_q(t) == 'bitar::chunk_index::ChunkIndex::contains':
@@ -289,6 +295,18 @@ def run(facts, cg):
                 continue
             n_fl += 1
             term = simplify(T.resolve_env(simplify(T.of_operand(b, t['args'][1]))))
+            # a list filled by push() in a loop: what is pushed is what it holds
+            lb = b.base_of(t['args'][1])
+            pushed = []
+            if lb and not lb[1]:
+                find = b.alias_classes()
+                for pbi, pt in b.calls():
+                    if 'q' in pt['callee'] and callee_q(pt).endswith(('Vec::push', 'Vec::extend', 'Vec::extend_from_slice')) and len(pt['args']) == 2:
+                        pb_ = b.base_of(pt['args'][0])
+                        if pb_ and not pb_[1] and find(pb_[0]) == find(lb[0]):
+                            pushed.append(simplify(T.resolve_env(simplify(T.of_operand(b, pt['args'][1])))))
+            if pushed:
+                term = ('tuple', [term] + pushed)
             fields = {n_[2] for n_ in walk(term) if n_[0] == 'field' and isinstance(n_[2], str)}
             # the table of unique descriptors = the Vec field of Archive whose element type is ChunkDescriptor
             table = [f_ for f_ in vecs if _vec_elem(facts, 'bitar::archive::Archive', f_) == ARCH_DESC]
